@@ -12,6 +12,14 @@ use crate::{dispatch, guarded, lax_ops};
 use serde_json::{json, Value};
 use std::io::Write;
 
+thread_local! {
+    static ONLY: std::cell::RefCell<Vec<String>> = const { std::cell::RefCell::new(vec![]) };
+}
+/// is this operation wanted by the property being checked?  (`--only prefix,prefix,...`)
+fn wanted(op: &str) -> bool {
+    ONLY.with(|o| o.borrow().is_empty() || o.borrow().iter().any(|p| op.starts_with(p.as_str())))
+}
+
 fn emit(out: &mut impl Write, ev: Value) {
     serde_json::to_writer(&mut *out, &ev).unwrap();
     out.write_all(b"\n").unwrap();
@@ -195,9 +203,13 @@ fn pack(w: &[i64], edges: &[(i64, Vec<usize>, Vec<usize>)], s: &[usize], t: &[us
 /// a random single-writer acyclic circuit over the evaluation signature with `nops` operations,
 /// with hyperedges and nodes renumbered at random (numbering must not matter)
 fn rand_circuit(r: &mut Rng, nops: usize) -> (Value, usize) {
+    let ni = r.range(1, 3);
+    rand_circuit_with(r, nops, ni)
+}
+
+fn rand_circuit_with(r: &mut Rng, nops: usize, ni: usize) -> (Value, usize) {
     // label -> (arity, coarity)
     let sig: [(i64, usize, usize); 9] = [(1, 2, 1), (2, 2, 1), (3, 1, 1), (4, 1, 2), (6, 0, 1), (9, 2, 1), (10, 1, 1), (12, 2, 2), (13, 2, 2)];
-    let ni = r.range(1, 3);
     let mut avail: Vec<usize> = (0..ni).collect();
     let mut n = ni;
     let mut edges: Vec<(i64, Vec<usize>, Vec<usize>)> = vec![];
@@ -385,6 +397,151 @@ fn drive_strict(out: &mut impl Write, r: &mut Rng, budget: usize, props: &Value,
     }
 }
 
+
+// ------------------------------------------------------------------ graphs: layering, evaluation, predicates, convexity on larger inputs
+
+fn rand_hyper(r: &mut Rng, maxn: usize, maxe: usize, maxa: usize) -> Value {
+    let n = r.range(1, maxn);
+    let ne = r.below(maxe + 1);
+    let edges: Vec<(i64, Vec<usize>, Vec<usize>)> = (0..ne).map(|_| (r.below(2) as i64, rand_seq(r, n, maxa), rand_seq(r, n, maxa))).collect();
+    let w: Vec<i64> = (0..n).map(|_| r.below(2) as i64).collect();
+    let s = if r.coin(1, 2) { rand_seq(r, n, 3) } else { vec![] };
+    let t = if r.coin(1, 2) { rand_seq(r, n, 3) } else { vec![] };
+    pack(&w, &edges, &s, &t)
+}
+
+fn drive_graphs(out: &mut impl Write, r: &mut Rng, budget: usize, props: &Value, backend: &str) {
+    let mut produced = 0;
+    while produced < budget {
+        let choice = r.below(100);
+        let (op, args): (&str, Value) = if choice < 22 {
+            // circuits: deep (many layers) or wide (many inputs / many operations per layer)
+            let nops = r.range(3, 8);
+            let ni = if r.coin(1, 3) { r.range(6, 10) } else { r.range(1, 3) };
+            let (c, ni) = rand_circuit_with(r, nops, ni);
+            let inputs: Vec<usize> = (0..ni).map(|_| r.below(256)).collect();
+            ("strict.eval", json!({"f": c, "inputs": inputs}))
+        } else if choice < 30 {
+            // wires only: evaluation is a permutation of the inputs
+            let n = r.range(6, 12);
+            let mut p: Vec<usize> = (0..n).collect();
+            r.shuffle(&mut p);
+            let mut q: Vec<usize> = (0..n).collect();
+            if r.coin(1, 2) {
+                q.swap(1, 2);
+            }
+            let w = vec![0i64; n];
+            let inputs: Vec<usize> = (0..n).map(|_| r.below(256)).collect();
+            ("strict.eval", json!({"f": pack(&w, &[], if r.coin(1, 2) { &p } else { &q }, &q), "inputs": inputs}))
+        } else if choice < 45 {
+            let nops = r.range(3, 8);
+            let (c, _) = rand_circuit(r, nops);
+            (if r.coin(1, 2) { "strict.layer" } else { "strict.layered_operations" }, json!({"f": c}))
+        } else if choice < 60 {
+            // arbitrary (possibly cyclic) diagrams with many operations on few nodes: wide frontiers, multiplicities
+            let f = rand_hyper(r, 4, 7, 2);
+            (*r.pick(&["strict.layer", "strict.layered_operations", "strict.is_acyclic"]), json!({"f": f}))
+        } else if choice < 72 {
+            let f = rand_hyper(r, 8, 5, 3);
+            (*r.pick(&["strict.is_acyclic", "strict.is_monogamous"]), json!({"f": f}))
+        } else if choice < 80 {
+            let f = rand_hyper(r, 7, 5, 3);
+            ("hook.node_adjacency", json!({"h": f["h"]}))
+        } else if choice < 88 {
+            let f = rand_hyper(r, 7, 5, 3);
+            let n = arr(&f["h"]["w"]).len();
+            (*r.pick(&["hyper.in_degree", "hyper.out_degree"]), json!({"h": f["h"], "node": r.below(n)}))
+        } else {
+            ("arrow.is_convex_subgraph", rand_inclusion(r))
+        };
+        if !wanted(op) {
+            continue;
+        }
+        let obs = dispatch(op, backend, &args);
+        emit(out, json!({"op": op, "props": props, "args": args, "backend": backend, "profile": profile(), "obs": obs}));
+        produced += 1;
+    }
+}
+
+/// structured identification lists: a balanced merge schedule (pairs, then pairs of pairs, ...), which
+/// builds deep union-find trees, followed by redundant identifications and a late necessary one.
+/// Returns (n1, n2, left ends in 0..n1, right ends in 0..n2).
+fn structured_pairs(r: &mut Rng) -> (usize, usize, Vec<usize>, Vec<usize>) {
+    let m = r.range(3, 6);
+    let mut pf: Vec<usize> = (0..m).collect();
+    let mut pg: Vec<usize> = (0..m + 1).collect();
+    r.shuffle(&mut pf);
+    r.shuffle(&mut pg);
+    let mut pairs: Vec<(usize, usize)> = (0..m).map(|i| (i, i)).collect();
+    let mut step = 1;
+    while step < m {
+        let mut level: Vec<(usize, usize)> = vec![];
+        let mut j = 0;
+        while j + step < m {
+            level.push((j, j + step));
+            j += 2 * step;
+        }
+        r.shuffle(&mut level);
+        pairs.extend(level);
+        step *= 2;
+    }
+    for _ in 0..r.range(0, 4) {
+        pairs.push((r.below(m), r.below(m)));
+    }
+    pairs.push((r.below(m), m)); // the extra node on the right joins last
+    if r.coin(1, 4) {
+        r.shuffle(&mut pairs);
+    }
+    (m, m + 1, pairs.iter().map(|p| pf[p.0]).collect(), pairs.iter().map(|p| pg[p.1]).collect())
+}
+
+/// gluing along long boundaries: discrete diagrams with 3..6 nodes each, boundaries of length 4..12 with
+/// repeated nodes (deep merge chains, dense identification graphs)
+fn drive_glue(out: &mut impl Write, r: &mut Rng, budget: usize, props: &Value, backend: &str) {
+    let mut produced = 0;
+    while produced < budget {
+        let (mut n1, mut n2) = (r.range(2, 6), r.range(2, 6));
+        let len = r.range(4, 12);
+        let mut ft: Vec<usize> = (0..len).map(|_| r.below(n1)).collect();
+        let mut gs: Vec<usize> = (0..len).map(|_| r.below(n2)).collect();
+        if r.coin(1, 2) {
+            let (a, b, x, y) = structured_pairs(r);
+            n1 = a;
+            n2 = b;
+            ft = x;
+            gs = y;
+        }
+        let fs = rand_seq(r, n1, 3);
+        let gt = rand_seq(r, n2, 3);
+        let ne = r.below(2);
+        let fe: Vec<(i64, Vec<usize>, Vec<usize>)> = (0..ne).map(|_| (0, rand_seq(r, n1, 2), rand_seq(r, n1, 2))).collect();
+        let f = pack(&vec![0i64; n1], &fe, &fs, &ft);
+        let g = pack(&vec![0i64; n2], &[], &gs, &gt);
+        let which = r.below(8);
+        let (op, args) = if which < 5 {
+            ("strict.compose", json!({"f": f, "g": g}))
+        } else if which < 7 {
+            // the same identifications as pending unifications of one lax diagram, then quotient
+            let n = n1 + n2;
+            let qr: Vec<usize> = gs.iter().map(|v| v + n1).collect();
+            let all: Vec<usize> = (0..n).collect();
+            let pre = json!({"nodes": vec![0; n], "edges": [3], "adj": [{"s": all, "t": [n - 1]}], "ql": ft, "qr": qr, "sources": all, "targets": [0]});
+            ("lax.quotient", json!({"pre": pre}))
+        } else {
+            // the same gluing through the lax route: compose, then quotient via to_strict is judged separately
+            let lf = json!({"nodes": vec![0; n1], "edges": [], "adj": [], "ql": [], "qr": [], "sources": fs, "targets": ft});
+            let lg = json!({"nodes": vec![0; n2], "edges": [], "adj": [], "ql": [], "qr": [], "sources": gs, "targets": gt});
+            ("lax.compose", json!({"f": lf, "g": lg}))
+        };
+        if !wanted(op) {
+            continue;
+        }
+        let obs = dispatch(op, backend, &args);
+        emit(out, json!({"op": op, "props": props, "args": args, "backend": backend, "profile": profile(), "obs": obs}));
+        produced += 1;
+    }
+}
+
 // ------------------------------------------------------------------ arrays, finite functions
 
 fn rand_arr(r: &mut Rng, maxlen: usize, maxv: usize) -> Vec<usize> {
@@ -395,9 +552,9 @@ fn rand_arr(r: &mut Rng, maxlen: usize, maxv: usize) -> Vec<usize> {
 fn drive_arrays(out: &mut impl Write, r: &mut Rng, budget: usize, props: &Value, backend: &str) {
     let mut produced = 0;
     while produced < budget {
-        let a = rand_arr(r, 9, 6);
+        let a = rand_arr(r, 12, 6);
         let n = a.len();
-        let choice = r.below(16);
+        let choice = r.below(22);
         let (op, args): (&str, Value) = match choice {
             0 => ("arr.gather", json!({"a": a, "idx": rand_seq(r, n, 9)})),
             1 if n > 0 => ("arr.scatter", json!({"a": a, "idx": (0..n).map(|_| r.below(8)).collect::<Vec<_>>(), "n": 8})),
@@ -407,8 +564,18 @@ fn drive_arrays(out: &mut impl Write, r: &mut Rng, budget: usize, props: &Value,
             5 => ("arr.bincount", json!({"a": a, "size": 7})),
             6 => ("arr.zero", json!({"a": a})),
             7 => {
-                let b: Vec<usize> = (0..n).map(|_| r.below(7)).collect();
-                ("arr.connected_components", json!({"src": a, "tgt": b, "n": 7}))
+                // sparse and dense edge lists over 4..12 nodes
+                if r.coin(1, 2) {
+                    let nn = r.range(4, 12);
+                    let m = r.range(0, 2 * nn);
+                    let src: Vec<usize> = (0..m).map(|_| r.below(nn)).collect();
+                    let tgt: Vec<usize> = (0..m).map(|_| r.below(nn)).collect();
+                    ("arr.connected_components", json!({"src": src, "tgt": tgt, "n": nn}))
+                } else {
+                    let (n1, n2, x, y) = structured_pairs(r);
+                    let tgt: Vec<usize> = y.iter().map(|v| v + n1).collect();
+                    ("arr.connected_components", json!({"src": x, "tgt": tgt, "n": n1 + n2}))
+                }
             }
             8 => {
                 let sizes = rand_arr(r, 5, 3);
@@ -432,6 +599,36 @@ fn drive_arrays(out: &mut impl Write, r: &mut Rng, budget: usize, props: &Value,
                 let k = s.len();
                 let tot: usize = s.iter().sum();
                 ("ff.injections", json!({"s": {"table": s, "target": tot + 1}, "a": {"table": rand_seq(r, k, 6), "target": k}}))
+            }
+            16 if n > 0 => {
+                // in-place scatter forms: distinct positions in any order, runs, duplicates
+                let m = r.range(1, 12);
+                let mut pos: Vec<usize> = (0..m).collect();
+                if r.coin(2, 3) {
+                    r.shuffle(&mut pos);
+                } else if m > 2 {
+                    pos.swap(1, 2);
+                }
+                let k = r.range(1, m);
+                let ix: Vec<usize> = pos[..k].to_vec();
+                let old: Vec<usize> = (0..m).map(|_| r.below(7)).collect();
+                let vals: Vec<usize> = (0..k).map(|i| 10 + i).collect();
+                ("arr.scatter_assign", json!({"a": old, "idx": ix, "vals": vals}))
+            }
+            17 => ("arr.scatter_assign_constant", json!({"a": a, "idx": rand_seq(r, n, 6), "c": 9})),
+            18 => {
+                let sizes = rand_arr(r, 5, 3);
+                ("arr.cumulative_sum", json!({"a": sizes}))
+            }
+            19 => {
+                let key: Vec<usize> = (0..n.min(5)).map(|_| r.below(3)).collect();
+                let vals: Vec<usize> = (0..key.len()).map(|i| i + 1).collect();
+                ("arr.sort_by", json!({"vals": vals, "key": key}))
+            }
+            20 => ("arr.quot_rem", json!({"a": a, "d": r.range(1, 5)})),
+            21 => {
+                let b: Vec<usize> = (0..n).map(|_| r.below(7)).collect();
+                ("arr.mul_constant_add", json!({"a": a, "c": r.below(4), "x": b}))
             }
             13 => {
                 let b = r.below(5);
@@ -461,6 +658,9 @@ fn drive_arrays(out: &mut impl Write, r: &mut Rng, budget: usize, props: &Value,
                                              "x": {"table": rand_seq(r, k, 5), "target": k}}))
             }
         };
+        if !wanted(op) {
+            continue;
+        }
         let obs = dispatch(op, backend, &args);
         emit(out, json!({"op": op, "props": props, "args": args, "backend": backend, "profile": profile(), "obs": obs}));
         produced += 1;
@@ -481,6 +681,7 @@ pub fn main(args: &[String]) {
             "--budget" => budget = args[i + 1].parse().unwrap_or(1000),
             "--props" => props = Value::Array(args[i + 1].split(',').map(|s| json!(s)).collect()),
             "--backend" => backend = args[i + 1].clone(),
+            "--only" => ONLY.with(|o| *o.borrow_mut() = args[i + 1].split(',').filter(|s| !s.is_empty()).map(|s| s.to_string()).collect()),
             _ => {
                 eprintln!("drive: unknown argument {}", args[i]);
                 std::process::exit(2);
@@ -498,6 +699,8 @@ pub fn main(args: &[String]) {
         "lax" => drive_lax(&mut out, &mut r, budget, &props),
         "strict" => drive_strict(&mut out, &mut r, budget, &props, &backend),
         "arrays" => drive_arrays(&mut out, &mut r, budget, &props, &backend),
+        "graphs" => drive_graphs(&mut out, &mut r, budget, &props, &backend),
+        "glue" => drive_glue(&mut out, &mut r, budget, &props, &backend),
         _ => {
             eprintln!("drive: unknown machine {}", machine);
             std::process::exit(2);
